@@ -130,3 +130,102 @@ Proof.
   all: rewrite ring_loop_cons, W3; cbn [fst snd]; rewrite ring_loop_cons, W4; cbn [fst snd].
   all: simpl ring_loop; rewrite app_nil_r, ?app_nil_l, <- !app_assoc; reflexivity.
 Qed.
+
+(* ------------------------------------------------------------------ lentil/util.py: window(img, shape, slice) *)
+Definition window_slice_model (size : Z) (shape : option (Z * Z)) (sl : Z * Z * Z * Z)
+  : result (option ((Z * Z) * (Z * Z))) :=
+  let '(s0, s1, s2, s3) := sl in
+  if size =? 1 then Ok None else
+  match shape with
+  | Some (h, w) =>
+      if negb (s1 - s0 =? h) then Err AssertionErr
+      else if negb (s3 - s2 =? w) then Err AssertionErr
+      else Ok (Some ((s0, s1), (s2, s3)))
+  | None => Ok (Some ((s0, s1), (s2, s3)))
+  end.
+
+Lemma src_window_slice_ok : forall (n m : Z) (shape : Z * Z) (sl : Z * Z * Z * Z),
+  src_window_slice (n, m) shape sl = window_slice_model (n * m) (Some shape) sl.
+Proof. intros; destr_prods; unfold src_window_slice, window_slice_model; src_finish. Qed.
+
+Lemma src_window_slice_noshape_ok : forall (n m : Z) (sl : Z * Z * Z * Z),
+  Ok (src_window_slice_noshape (n, m) sl) = window_slice_model (n * m) None sl.
+Proof. intros; destr_prods; unfold src_window_slice_noshape, window_slice_model; src_finish. Qed.
+
+Lemma src_window_slice_cube_ok : forall (d n m : Z) (shape : Z * Z) (sl : Z * Z * Z * Z),
+  src_window_slice_cube (d, n, m) shape sl = window_slice_model (d * n * m) (Some shape) sl.
+Proof. intros; destr_prods; unfold src_window_slice_cube, window_slice_model; src_finish. Qed.
+
+(* the model's window / window3 with a slice are exactly this decision followed by numpy slicing *)
+Lemma window_uses_slice_model : forall (S : Scalar) (a : arr S) (shape : option (Z * Z)) (sl : Z * Z * Z * Z),
+  window a shape (Some sl) =
+  match window_slice_model (nr a * nc a) shape sl with
+  | Ok None => Ok a
+  | Ok (Some ((r0, r1), (c0, c1))) => Ok (np_slice a r0 r1 c0 c1)
+  | Err e => Err e
+  end.
+Proof.
+  intros. destruct sl as [[[s0 s1] s2] s3]. unfold window, window_slice_model.
+  destruct (nr a * nc a =? 1); [reflexivity|]. destruct shape as [[h w]|]; [|reflexivity].
+  destruct (negb (s1 - s0 =? h)); [reflexivity|]. destruct (negb (s3 - s2 =? w)); reflexivity.
+Qed.
+
+Lemma window3_uses_slice_model : forall (S : Scalar) (c : cube S) (shape : option (Z * Z)) (sl : Z * Z * Z * Z),
+  window3 c shape (Some sl) =
+  match window_slice_model (cd c * cr c * cc c) shape sl with
+  | Ok None => Ok c
+  | Ok (Some ((r0, r1), (c0, c1))) => Ok (np_slice3 c r0 r1 c0 c1)
+  | Err e => Err e
+  end.
+Proof.
+  intros. destruct sl as [[[s0 s1] s2] s3]. unfold window3, window_slice_model.
+  destruct (cd c * cr c * cc c =? 1); [reflexivity|]. destruct shape as [[h w]|]; [|reflexivity].
+  destruct (negb (s1 - s0 =? h)); [reflexivity|]. destruct (negb (s3 - s2 =? w)); reflexivity.
+Qed.
+
+(* ------------------------------------------------------------------ lentil/helper.py: mesh, the origin convention *)
+Lemma src_mesh_origin_ok : forall (n m s0 s1 i j : Z),
+  src_mesh_origin (n, m) (s0, s1) i j = (i - ctr n - s0, j - ctr m - s1).
+Proof. intros; unfold src_mesh_origin, ctr; src_finish. Qed.
+
+(* the same facts in the form Properties/C20Src.v states them *)
+Lemma src_window_slice_stmt : forall (n m : Z) (shape : Z * Z) (sl : Z * Z * Z * Z),
+  src_window_slice (n, m) shape sl =
+  let '(s0, s1, s2, s3) := sl in
+  if n * m =? 1 then Ok None
+  else if negb (s1 - s0 =? fst shape) then Err AssertionErr
+  else if negb (s3 - s2 =? snd shape) then Err AssertionErr
+  else Ok (Some ((s0, s1), (s2, s3))).
+Proof. intros n m [h w] sl. rewrite src_window_slice_ok. destruct sl as [[[s0 s1] s2] s3]. reflexivity. Qed.
+
+Lemma src_window_slice_noshape_stmt : forall (n m : Z) (sl : Z * Z * Z * Z),
+  src_window_slice_noshape (n, m) sl =
+  let '(s0, s1, s2, s3) := sl in if n * m =? 1 then None else Some ((s0, s1), (s2, s3)).
+Proof. intros; destr_prods; unfold src_window_slice_noshape; src_finish. Qed.
+
+Lemma src_window_slice_cube_stmt : forall (d n m : Z) (shape : Z * Z) (sl : Z * Z * Z * Z),
+  src_window_slice_cube (d, n, m) shape sl =
+  let '(s0, s1, s2, s3) := sl in
+  if d * n * m =? 1 then Ok None
+  else if negb (s1 - s0 =? fst shape) then Err AssertionErr
+  else if negb (s3 - s2 =? snd shape) then Err AssertionErr
+  else Ok (Some ((s0, s1), (s2, s3))).
+Proof. intros d n m [h w] sl. rewrite src_window_slice_cube_ok. destruct sl as [[[s0 s1] s2] s3]. reflexivity. Qed.
+
+Lemma src_window_is_window : forall (S : Scalar) (a : arr S) (shape : Z * Z) (sl : Z * Z * Z * Z),
+  window a (Some shape) (Some sl) =
+  match src_window_slice (nr a, nc a) shape sl with
+  | Ok None => Ok a
+  | Ok (Some ((r0, r1), (c0, c1))) => Ok (np_slice a r0 r1 c0 c1)
+  | Err e => Err e
+  end.
+Proof. intros. rewrite src_window_slice_ok. apply window_uses_slice_model. Qed.
+
+Lemma src_window_cube_is_window3 : forall (S : Scalar) (c : cube S) (shape : Z * Z) (sl : Z * Z * Z * Z),
+  window3 c (Some shape) (Some sl) =
+  match src_window_slice_cube (cd c, cr c, cc c) shape sl with
+  | Ok None => Ok c
+  | Ok (Some ((r0, r1), (c0, c1))) => Ok (np_slice3 c r0 r1 c0 c1)
+  | Err e => Err e
+  end.
+Proof. intros. rewrite src_window_slice_cube_ok. apply window3_uses_slice_model. Qed.
